@@ -120,14 +120,16 @@ namespace c10
   // With rng != nullptr the numbering of the edges / faces is a random permutation and every edge / face gets a random
   // one of its valid local vertex orders (2 for an edge, 6 for a triangle, 8 for a quadrilateral) -- mesh files may
   // legally contain any of these.
+  // full symmetry groups of the sub-entity shapes as valid local vertex orders (new local i = old local sym[i]):
+  // quadrilateral in tensor numbering: 4 rotations + 4 mirrored; triangle: all 6 permutations
+  static const int quad_sym[8][4] = {{0, 1, 2, 3}, {1, 3, 0, 2}, {3, 2, 1, 0}, {2, 0, 3, 1}, {1, 0, 3, 2}, {3, 1, 2, 0}, {2, 3, 0, 1}, {0, 2, 1, 3}};
+  static const int tria_sym[6][3] = {{0, 1, 2}, {1, 2, 0}, {2, 0, 1}, {0, 2, 1}, {2, 1, 0}, {1, 0, 2}};
   struct Topo { Idx n[4] = {0, 0, 0, 0}; std::vector<Idx> idx[4][4]; };
   inline void build_topology(const ShapeTab& t, Idx nverts, const std::vector<Idx>& cells, vh::Rng* rng, Topo& out)
   {
     const int dim = t.dim, nvc = t.nv(dim);
     out.n[0] = nverts; out.n[dim] = Idx(cells.size() / std::size_t(nvc));
     out.idx[dim][0] = cells;
-    static const int quad_sym[8][4] = {{0, 1, 2, 3}, {1, 3, 0, 2}, {3, 2, 1, 0}, {2, 0, 3, 1}, {1, 0, 3, 2}, {3, 1, 2, 0}, {2, 3, 0, 1}, {0, 2, 1, 3}};
-    static const int tria_sym[6][3] = {{0, 1, 2}, {1, 2, 0}, {2, 0, 1}, {0, 2, 1}, {2, 1, 0}, {1, 0, 2}};
     KeyMap<Idx> maps[3];
     for(int e = dim - 1; e >= 1; --e)
     {
